@@ -50,7 +50,9 @@ def cases(draw):
     nrandom = draw(st.integers(1, 21))
     nrows = draw(st.integers(1, 5))
     seed = draw(st.integers(0, 2 ** 32 - 1))
-    perturb = draw(st.sampled_from(["none", "none", "tiny", "big"]))
+    perturb = draw(st.sampled_from(["none", "none", "tiny", "big", "big-one-row"]))
+    if perturb == "big-one-row":
+        nrows = draw(st.integers(120, 200))       # a long table with a single contradictory volume row
     pert_col = draw(st.integers(0, 20))
     flags = {
         "ignore_rank": draw(st.booleans()),
@@ -117,6 +119,9 @@ def build_values(c, keys):
         col = c["pert_col"] % len(keys)
         delta = np.zeros_like(vals)
         delta[:, col] = rng.uniform(0.5, 1.0, size=c["nrows"]) * rng.choice([-1.0, 1.0])
+        if c["perturb"] == "big-one-row":
+            keep = int(rng.integers(0, c["nrows"]))
+            delta[np.arange(c["nrows"]) != keep, :] = 0.0
         _, d2 = complete(system, keys, vals + delta)
         d2max = float(np.max(d2))
         if d2max < 1e-20:
@@ -124,13 +129,12 @@ def build_values(c, keys):
             vals = vals + delta
             cls = "consistent"
         else:
-            target = tol / 1e4 if c["perturb"] == "tiny" else 1e4 * tol
+            target = tol / 1e4 if c["perturb"] == "tiny" else (1e4 * tol if c["perturb"] == "big" else 50 * tol)
             # scale so that the *smallest* (big) resp. largest (tiny) row distance hits the target
-            ref = float(np.min(d2[d2 > 0])) if c["perturb"] == "big" else d2max
+            # smallest *real* row distance for "big" (every row beyond the threshold), the single perturbed row otherwise
+            ref = float(np.min(d2[d2 > 1e-9 * d2max])) if c["perturb"] == "big" else d2max
             vals = vals + delta * np.sqrt(target / ref)
             cls = "tiny-perturbation" if c["perturb"] == "tiny" else "inconsistent"
-            if c["perturb"] == "big" and np.any(d2 <= 0):
-                pass
     wref, d2 = complete(system, keys, vals)
     return vals, cls, wref, d2, integer
 
@@ -325,7 +329,12 @@ def full_oracle(ctx, c):
             raise PropertyViolation("C09/presentation-dependence", "accept/refuse differs between presentations", c)
         if "x" in info:
             scale = max(float(np.max(np.abs(info_b["x"]))), 1.0)
-            if info["columns"] != info_b["columns"] or np.max(np.abs(info["x"] - info_b["x"])) > 1e-12 * scale:
+            if info["class"] == "inconsistent":
+                # least-squares compromise of contradictory data (ignore_residuals): components of the order of drop_atol may
+                # fall on either side of the drop threshold depending on rounding; compare values (dropped = 0) only
+                if np.max(np.abs(info["x"] - info_b["x"])) > 1e-9 * scale + 2 * c["flags"]["drop_atol"]:
+                    raise PropertyViolation("C09/presentation-dependence", "result differs between presentations (contradictory data, ignore_residuals)", c)
+            elif info["columns"] != info_b["columns"] or np.max(np.abs(info["x"] - info_b["x"])) > 1e-12 * scale:
                 raise PropertyViolation("C09/presentation-dependence", "result differs between presentations", c)
     return info
 
